@@ -71,8 +71,7 @@ pub fn parse_tex_adt<R: Read + Seek>(
         if let Some(chunk_info) = chunks.first() {
             reader.seek(SeekFrom::Start(chunk_info.offset + 8))?;
             // Read chunk data into buffer to prevent reading into next chunk
-            let mut chunk_data = vec![0u8; chunk_info.size as usize];
-            reader.read_exact(&mut chunk_data)?;
+            let chunk_data = crate::chunk_header::read_exact_vec(reader, chunk_info.size as usize)?;
             let mut cursor = std::io::Cursor::new(chunk_data);
             let mtex = MtexChunk::read_le(&mut cursor)?;
             mtex.filenames
@@ -143,8 +142,7 @@ pub fn parse_obj_adt<R: Read + Seek>(
         if let Some(chunk_info) = chunks.first() {
             reader.seek(SeekFrom::Start(chunk_info.offset + 8))?;
             // Read chunk data into buffer to prevent reading into next chunk
-            let mut chunk_data = vec![0u8; chunk_info.size as usize];
-            reader.read_exact(&mut chunk_data)?;
+            let chunk_data = crate::chunk_header::read_exact_vec(reader, chunk_info.size as usize)?;
             let mut cursor = Cursor::new(chunk_data);
             let mmdx = MmdxChunk::read_le(&mut cursor)?;
             mmdx.filenames
@@ -160,8 +158,7 @@ pub fn parse_obj_adt<R: Read + Seek>(
         if let Some(chunk_info) = chunks.first() {
             reader.seek(SeekFrom::Start(chunk_info.offset + 8))?;
             // Read chunk data into buffer to prevent until_eof from reading past chunk boundary
-            let mut chunk_data = vec![0u8; chunk_info.size as usize];
-            reader.read_exact(&mut chunk_data)?;
+            let chunk_data = crate::chunk_header::read_exact_vec(reader, chunk_info.size as usize)?;
             let mut cursor = Cursor::new(chunk_data);
             let mmid = MmidChunk::read_le(&mut cursor)?;
             mmid.offsets
@@ -177,8 +174,7 @@ pub fn parse_obj_adt<R: Read + Seek>(
         if let Some(chunk_info) = chunks.first() {
             reader.seek(SeekFrom::Start(chunk_info.offset + 8))?;
             // Read chunk data into buffer to prevent reading into next chunk
-            let mut chunk_data = vec![0u8; chunk_info.size as usize];
-            reader.read_exact(&mut chunk_data)?;
+            let chunk_data = crate::chunk_header::read_exact_vec(reader, chunk_info.size as usize)?;
             let mut cursor = Cursor::new(chunk_data);
             let mwmo = MwmoChunk::read_le(&mut cursor)?;
             mwmo.filenames
@@ -194,8 +190,7 @@ pub fn parse_obj_adt<R: Read + Seek>(
         if let Some(chunk_info) = chunks.first() {
             reader.seek(SeekFrom::Start(chunk_info.offset + 8))?;
             // Read chunk data into buffer to prevent until_eof from reading past chunk boundary
-            let mut chunk_data = vec![0u8; chunk_info.size as usize];
-            reader.read_exact(&mut chunk_data)?;
+            let chunk_data = crate::chunk_header::read_exact_vec(reader, chunk_info.size as usize)?;
             let mut cursor = Cursor::new(chunk_data);
             let mwid = MwidChunk::read_le(&mut cursor)?;
             mwid.offsets
@@ -211,8 +206,7 @@ pub fn parse_obj_adt<R: Read + Seek>(
         if let Some(chunk_info) = chunks.first() {
             reader.seek(SeekFrom::Start(chunk_info.offset + 8))?;
             // Read chunk data into buffer to prevent until_eof from reading past chunk boundary
-            let mut chunk_data = vec![0u8; chunk_info.size as usize];
-            reader.read_exact(&mut chunk_data)?;
+            let chunk_data = crate::chunk_header::read_exact_vec(reader, chunk_info.size as usize)?;
             let mut cursor = Cursor::new(chunk_data);
             let mddf = MddfChunk::read_le(&mut cursor)?;
             mddf.placements
@@ -228,8 +222,7 @@ pub fn parse_obj_adt<R: Read + Seek>(
         if let Some(chunk_info) = chunks.first() {
             reader.seek(SeekFrom::Start(chunk_info.offset + 8))?;
             // Read chunk data into buffer to prevent until_eof from reading past chunk boundary
-            let mut chunk_data = vec![0u8; chunk_info.size as usize];
-            reader.read_exact(&mut chunk_data)?;
+            let chunk_data = crate::chunk_header::read_exact_vec(reader, chunk_info.size as usize)?;
             let mut cursor = Cursor::new(chunk_data);
             let modf = ModfChunk::read_le(&mut cursor)?;
             modf.placements
@@ -343,17 +336,17 @@ fn parse_mcnk_texture_chunks<R: Read + Seek>(
             match subchunk_header.id {
                 ChunkId::MCLY => {
                     // Read chunk data into buffer to prevent reading into next chunk
-                    let mut chunk_data = vec![0u8; subchunk_header.size as usize];
                     reader.seek(SeekFrom::Start(current_pos))?;
-                    reader.read_exact(&mut chunk_data)?;
+                    let chunk_data =
+                        crate::chunk_header::read_exact_vec(reader, subchunk_header.size as usize)?;
                     let mut cursor = std::io::Cursor::new(chunk_data);
                     layers = Some(MclyChunk::read_le(&mut cursor)?);
                 }
                 ChunkId::MCAL => {
                     // Read chunk data into buffer to prevent reading into next chunk
-                    let mut chunk_data = vec![0u8; subchunk_header.size as usize];
                     reader.seek(SeekFrom::Start(current_pos))?;
-                    reader.read_exact(&mut chunk_data)?;
+                    let chunk_data =
+                        crate::chunk_header::read_exact_vec(reader, subchunk_header.size as usize)?;
                     let mut cursor = std::io::Cursor::new(chunk_data);
                     alpha_maps = Some(McalChunk::read_le(&mut cursor)?);
                 }
